@@ -232,10 +232,12 @@ retry_fetch_lv:
         // root was fetched correctly.
         // root = lv; advance key; goto retry_find_border;
         traverse_key_view.remove_prefix(sizeof(key_slice_type));
-        ctx->stack(key_tup, root, target_border, cmp_to_end,
+        // the link entry actually found. It differs from key_tup only if key_tup is key_tuple::max().
+        key_tuple found_tup{key_tup.get_key_slice(), sizeof(key_slice_type) + 1};
+        ctx->stack(found_tup, root, target_border, cmp_to_end,
                    {v_at_fb, permutation(target_border->get_permutation().get_body()), 0});
         if (cmp_to_end == 0) {
-            if (key_tup != ctx->get_end_tuple(-1)) {
+            if (found_tup != ctx->get_end_tuple(-1)) {
                 cmp_to_end = -1;
             }
         }
